@@ -133,46 +133,49 @@ func (dmx *Demuxer) NextData() (d *DemuxerData, err error) {
 	var ps []*Packet
 	var ds []*DemuxerData
 	for {
-		// Get next packet
-		if p, err = dmx.NextPacket(); err != nil {
-			// If the end of the stream has been reached, we dump the packet pool
-			if err == ErrNoMorePackets {
-				for {
-					// Dump packet pool
-					if ps = dmx.packetPool.dumpUnlocked(); len(ps) == 0 {
-						break
-					}
+		// A complete payload may be waiting behind the one that was parsed last
+		if ps = dmx.packetPool.doneUnlocked(); len(ps) == 0 {
+			// Get next packet
+			if p, err = dmx.NextPacket(); err != nil {
+				// If the end of the stream has been reached, we dump the packet pool
+				if err == ErrNoMorePackets {
+					for {
+						// Dump packet pool
+						if ps = dmx.packetPool.dumpUnlocked(); len(ps) == 0 {
+							break
+						}
 
-					// Packets whose payload unit start was never seen are not parsed
-					prs, ok := dmx.packetsParser(ps)
-					if !ok {
-						continue
-					}
+						// Packets whose payload unit start was never seen are not parsed
+						prs, ok := dmx.packetsParser(ps)
+						if !ok {
+							continue
+						}
 
-					// Parse data
-					var errParseData error
-					if ds, errParseData = parseData(ps, prs, dmx.programMap); errParseData != nil {
-						// Log error as there may be some incomplete data here
-						// We still want to try to parse all packets, in case final data is complete
-						dmx.l.Error(fmt.Errorf("astits: parsing data failed: %w", errParseData))
-						continue
-					}
+						// Parse data
+						var errParseData error
+						if ds, errParseData = parseData(ps, prs, dmx.programMap); errParseData != nil {
+							// Log error as there may be some incomplete data here
+							// We still want to try to parse all packets, in case final data is complete
+							dmx.l.Error(fmt.Errorf("astits: parsing data failed: %w", errParseData))
+							continue
+						}
 
-					// Update data
-					if d = dmx.updateData(ds); d != nil {
-						err = nil
-						return
+						// Update data
+						if d = dmx.updateData(ds); d != nil {
+							err = nil
+							return
+						}
 					}
+					return
 				}
+				err = fmt.Errorf("astits: fetching next packet failed: %w", err)
 				return
 			}
-			err = fmt.Errorf("astits: fetching next packet failed: %w", err)
-			return
-		}
 
-		// Add packet to the pool
-		if ps = dmx.packetPool.addUnlocked(p); len(ps) == 0 {
-			continue
+			// Add packet to the pool
+			if ps = dmx.packetPool.addUnlocked(p); len(ps) == 0 {
+				continue
+			}
 		}
 
 		// Packets whose payload unit start was never seen are not parsed
